@@ -262,7 +262,7 @@ PROPS = {
         ],
         "level_text": ("Seeded exploration of kernel behaviours under 1-3 concurrent channels (pipe / Unix stream / loopback TCP) with write, write_vectored, zero-copy write against read, read_vectored, managed read and multishot read: "
                        "the receiver's byte sequence equals the sender's and is followed by end of stream after shutdown; submitted buffers come back identical; nothing is left pending; no ring leaks."),
-        "level_note": "Three scenarios: streams (every read/write flavour, split halves, shutdown), datagrams (UDP: every send and receive flavour incl. vectored, msg, managed and the two multishot streams; truncation to the buffer, source address, MSG_TRUNC flag; a datagram may be lost with a stream dropped early, never duplicated, reordered or altered) and accepts (TCP and Unix listeners, single accepts or one multishot stream: every client is accepted exactly once). Unix datagram sockets are not exercised. The simulated kernel's fidelity is checked by running compio's own 217 tests on it (tools/fidelity.sh): all pass.",
+        "level_note": "Three scenarios: streams (every read/write flavour, split halves, shutdown), datagrams (UDP: every send and receive flavour incl. vectored, msg, msg-vectored, managed, msg-managed and the three multishot streams; truncation to the buffer, source address, MSG_TRUNC flag; a datagram may be lost with a stream dropped early, never duplicated, reordered or altered) and accepts (TCP and Unix listeners, single accepts or one multishot stream: every client is accepted exactly once). Unix datagram sockets are not exercised. The simulated kernel's fidelity is checked by running compio's own 217 tests on it (tools/fidelity.sh): all pass.",
     },
     "C01": {
         "title": "In-flight operations keep their memory and descriptors alive",
@@ -287,7 +287,7 @@ PROPS = {
         ],
         "level_text": ("Seeded exploration of abandon/teardown programs: no memory range of a pending operation is freed or moved before its final completion or the closing of its ring, no descriptor is closed under a pending operation, no freed block is written to, "
                        "every descriptor opened by the program or produced by an operation is closed by the time the runtime is gone, every buffer handed to an operation is dropped exactly once, and a zero-copy send returns its buffer only after the notification."),
-        "level_note": "Also run under C06 for the descriptor half. UDP / sendmsg control data and connect are not among the actors.",
+        "level_note": "Also run under C06 for the descriptor half. Connect is not among the actors; the control data of a pending sendmsg is watched like any buffer (exercised by the C13 socket scenarios, where the operations run to completion).",
     },
     "C02": {
         "title": "Every operation completes exactly once, with its own result",
@@ -365,7 +365,7 @@ PROPS = {
         "package": "check-k",
         "bin": "check-k",
         "design_ref": "§4, §7 C08",
-        "technique": "deterministic simulation with a reference model: generated programs of file and directory operations run through compio-fs on the driver drawn for the run (io_uring on the simulated ring; io_uring with a generated subset of the optional file opcodes reported as unsupported, so that fallback entries and the blocking pool are used; the polling driver, where file operations go to the pool) and, operation by operation, through the OS's synchronous calls (std::fs / pread / pwritev ...) on a twin tree; results (counts, bytes, buffer shape, errno) compared after every step, the two trees compared at the end; several tasks on their own sub-trees keep operations of different kinds in flight; kernel faults (tiny rings, lazy/reordered completions, partial submits); choice-sequence minimisation and replay; a run that kills its process is reported with a replay that regenerates it from its seed",
+        "technique": "deterministic simulation with a reference model: generated programs of file and directory operations (by path, by file handle and relative to directory handles: Dir with the openat / mkdirat / renameat / linkat / symlinkat / unlinkat / statx family, two-name operations across two handles) run through compio-fs on the driver drawn for the run (io_uring on the simulated ring; io_uring with a generated subset of the optional file opcodes reported as unsupported, so that fallback entries and the blocking pool are used; the polling driver, where file operations go to the pool) and, operation by operation, through the OS's synchronous calls (std::fs / pread / pwritev ...) on a twin tree; results (counts, bytes, buffer shape, errno, metadata incl. time stamps against the OS's view of the same object) compared after every step, the two trees compared at the end; several tasks on their own sub-trees keep operations of different kinds in flight; kernel faults (tiny rings, lazy/reordered completions, partial submits); choice-sequence minimisation and replay; a run that kills its process is reported with a replay that regenerates it from its seed",
         "tiers": {
             "quick": {"runs": 120_000, "time_limit_s": 60},
             "thorough": {"runs": 30_000_000, "time_limit_s": 1500},
@@ -382,7 +382,7 @@ PROPS = {
         ],
         "level_text": ("Seeded exploration of file/directory programs: open options (read/write/create/create_new/truncate/append), positional reads and writes in every buffer shape (exact, spare capacity, pre-initialised prefix, sub-slice, boxed, vectored with empty segments, managed), offsets 0 .. beyond 8 GiB, lengths 0 .. pages, set_len, sync, metadata, permissions, "
                        "path utilities (write, read, rename, remove, create_dir(_all), remove_dir, hard_link, symlink, metadata, symlink_metadata). After every operation compio's result equals the OS call's; at the end the tree written through compio is identical to the twin; identical on io_uring, io_uring with fallbacks, and polling."),
-        "level_note": "The Dir (dirfd) API, named pipes and stdio are not exercised. Timestamps are not compared.",
+        "level_note": "Path, handle and directory-handle (Dir) operations; time stamps (modified, accessed, created) are compared with the OS's view of the same object. Named pipes, stdio, set_times and remove_dir_all are not exercised.",
     },
     "C09": {
         "title": "Timers never fire early and always fire",
